@@ -169,7 +169,53 @@ func genReports(r *Rng, i int, maxN int, maxPow uint64, malformed bool) string {
 	return strings.Join(items, ",")
 }
 
+// genHugeMedian: total power in [2^62, 2^63): the quantifier of C06 goes "up to beyond the total token supply,
+// total power below 2^63" — cumulative sums near 2^62 are where 64-bit shortcuts (doubling, signed sums) break.
+func genHugeMedian(r *Rng) []string {
+	n := 1 + r.Intn(6)
+	total := uint64(1)<<62 + r.U64()%(uint64(1)<<62-1)
+	if r.Chance(1, 3) {
+		total = uint64(1)<<63 - 1 - uint64(r.Intn(3))
+	}
+	if r.Chance(1, 6) {
+		total = uint64(1)<<62 + uint64(r.Intn(3))
+	}
+	// split total into n positive parts
+	parts := make([]uint64, n)
+	left := total
+	for j := 0; j < n-1; j++ {
+		var p uint64
+		switch r.Intn(3) {
+		case 0:
+			p = 1 + r.U64()%5
+		case 1:
+			p = left / 2
+		default:
+			p = 1 + r.U64()%(left-uint64(n-j))
+		}
+		if p >= left-uint64(n-j-1) {
+			p = 1
+		}
+		parts[j] = p
+		left -= p
+	}
+	parts[n-1] = left
+	for j := n - 1; j > 0; j-- {
+		q := r.Intn(j + 1)
+		parts[j], parts[q] = parts[q], parts[j]
+	}
+	pool := genValuePool(r, 1+r.Intn(4), false)
+	var items []string
+	for j := 0; j < n; j++ {
+		items = append(items, fmt.Sprintf("r%02d:%s:%d:%d", j, pool[r.Intn(len(pool))], parts[j], 100+r.Intn(3)))
+	}
+	return []string{strings.Join(items, ",")}
+}
+
 func genMedian(r *Rng, i int, tier string) []string {
+	if r.Chance(1, 8) {
+		return genHugeMedian(r)
+	}
 	maxPow := uint64(1) << 20
 	if r.Chance(1, 4) {
 		maxPow = uint64(1) << 56 // totals stay below 2^63 with at most 60 reports
